@@ -92,8 +92,11 @@ structure Inv (s : State) : Prop where
   bound : s.conf.maxReaders ≠ 0 → s.readers.length ≤ s.conf.maxReaders
   nodup : s.readers.Nodup
   r3 : s.readers ≠ [] → s.stream.isSome = true
-  s1 : s.conf.alwaysAvailable = false → ∀ p, s.source = some (.pub p) → s.stream.isSome = true
-  s2 : s.conf.alwaysAvailable = false → s.srcUp = true → s.stream.isSome = true
+  s1 : s.conf.alwaysAvailable = false → s.closed = false → ∀ p, s.source = some (.pub p) → s.stream.isSome = true
+  s2 : s.conf.alwaysAvailable = false → s.closed = false → s.srcUp = true → s.stream.isSome = true
+  hkO : s.hkOnline = true → s.stream.isSome = true
+  c1 : s.conf.alwaysAvailable = false → s.stream.isSome = true → s.conf.kind = .publisher → s.source.isSome = true
+  c2 : s.conf.alwaysAvailable = false → s.stream.isSome = true → s.conf.kind ≠ .publisher → s.srcUp = true
   s3 : s.srcUp = true → s.srcRunning = true
   s4 : s.srcRunning = true → s.conf.kind = .static
   o1 : s.conf.odStatic = false → s.odSrc = .initial
@@ -125,21 +128,6 @@ theorem odStatic_iff (c : Conf) : c.odStatic = true ↔ (c.kind = .static ∧ c.
 
 /-- split `Inv` into its fields and let `grind` discharge each -/
 macro "inv_fields" : tactic => `(tactic| (constructor <;> grind))
-
-theorem inv_doDescribe (rid : Nat) (w : W) (h : Inv w.s) (hc : w.s.closed = false) : Inv (doDescribe rid w).s := by
-  unfold doDescribe
-  split
-  · exact h
-  split
-  · rw [replyStream_s]; exact h
-  split
-  · simp only [upd_s, holdDemand_s]
-    obtain ⟨h1, h2, h3, h4, h5, h6, h7, h8, h9, h9', h10, h11, h12, h13, h14, h15, h16, h17, h18, h19, h20, h21, h22, h23, h24⟩ := h
-    have := odStatic_iff w.s.conf
-    inv_fields
-  split
-  · exact h
-  · exact h
 
 /-! ### admitting readers (`addReaderPost`, `consumeOnHoldRequests`) -/
 
@@ -268,31 +256,6 @@ theorem inv_consume (w : W) (h : Inv w.s) (hs : w.s.stream.isSome = true) : Inv 
   obtain ⟨s1, R, e⟩ := consume_rd w
   rw [e]; exact inv_clearHolds (inv_rdstep h hs R)
 
-theorem inv_doAddReader (rid r : Nat) (w : W) (h : Inv w.s) (hc : w.s.closed = false) : Inv (doAddReader rid r w).s := by
-  unfold doAddReader
-  split
-  · exact inv_rdstep h ‹_› (addReaderPost_rd ..)
-  split
-  · simp only [upd_s, holdDemand_s]
-    cases h
-    have := odStatic_iff w.s.conf
-    inv_fields
-  · exact h
-
-theorem filter_ne_length (l : List Nat) (r : Nat) : (l.filter (· != r)).length ≤ l.length := List.length_filter_le _ _
-
-theorem inv_doRemoveReader (r : Nat) (w : W) (h : Inv w.s) (hc : w.s.closed = false) : Inv (doRemoveReader r w).s := by
-  unfold doRemoveReader onDemandStaticSourceScheduleClose onDemandPublisherScheduleClose
-  have h1 := filter_ne_length w.s.readers r
-  have h2 : (w.s.readers.filter (· != r)).Nodup := h.nodup.filter _
-  have h3 : w.s.readers.filter (· != r) ≠ [] → w.s.readers ≠ [] := by
-    intro hne he; rw [he] at hne; exact hne rfl
-  cases h
-  have := odStatic_iff w.s.conf
-  dsimp only
-  repeat' split
-  all_goals (simp only [upd_s, emit_s] at *; generalize w.s.readers.filter (· != r) = rs at *; inv_fields)
-
 theorem subErrCleanup_s (w : W) : (subErrCleanup w).s =
     { w.s with
       hkOnline := if w.s.conf.alwaysAvailable then w.s.hkOnline else false,
@@ -312,84 +275,6 @@ theorem newSub_s (w : W) : (newSub w).s = { w.s with
     srcSub := some w.s.nextSub,
     aaCur := if w.s.conf.alwaysAvailable then some w.s.nextSub else w.s.aaCur } := rfl
 
-theorem inv_execRemove (w : W) (h : Inv w.s) (hc : w.s.closed = false) (q : Nat)
-    (hs : w.s.source = some (.pub q)) : Inv (executeRemovePublisher w).s := by
-  rw [executeRemovePublisher_s]
-  have hv := odStatic_iff w.s.conf
-  cases h; inv_fields
-
-theorem pubOverride_post (w : W) (h : Inv w.s) (hc : w.s.closed = false) (hk : w.s.conf.kind = .publisher) :
-    Inv (pubOverride w).s ∧ (pubOverride w).s.source = none ∧ (pubOverride w).s.closed = false ∧
-    (pubOverride w).s.conf = w.s.conf := by
-  unfold pubOverride
-  split
-  · exact ⟨h, ‹_›, hc, rfl⟩
-  · rename_i q hq
-    refine ⟨inv_execRemove _ h hc q hq, ?_, ?_, ?_⟩ <;> simp [executeRemovePublisher_s, hc]
-  · rename_i x hx hne
-    exfalso
-    rcases h.kPub hk with h0 | ⟨q, hq⟩
-    · rw [h0] at hne; cases hne
-    · rw [hq] at hne; injection hne with e; exact hx q e.symm
-
-theorem inv_pubAttach (p : Nat) (ok : Bool) (w : W) (h : Inv w.s) (hc : w.s.closed = false)
-    (hk : w.s.conf.kind = .publisher) (hs : w.s.source = none) : Inv (pubAttach p ok w).s := by
-  unfold pubAttach
-  dsimp only
-  have hv := odStatic_iff w.s.conf
-  have hval := h.valid
-  unfold Conf.valid at hval
-  cases ok
-  · simp only [Bool.not_false, if_true, emit_s, subErrCleanup_s]
-    (repeat' split) <;> (try simp only [setAvailable_s] at *) <;> (cases h; inv_fields)
-  · simp only [Bool.not_true, Bool.false_eq_true, if_false, emit_s]
-    refine inv_consume _ ?_ ?_
-    · (repeat' split) <;>
-        simp only [emit_s, upd_s, newSub_s, setOnline_s, setAvailable_s, onDemandPublisherScheduleClose] at * <;>
-        (cases h; inv_fields)
-    · (repeat' split) <;>
-        simp only [emit_s, upd_s, newSub_s, setOnline_s, setAvailable_s, onDemandPublisherScheduleClose] at * <;>
-        (cases h; grind)
-
-theorem inv_doAddPublisher (p : Nat) (ok : Bool) (w : W) (h : Inv w.s) (hc : w.s.closed = false) :
-    Inv (doAddPublisher p ok w).s := by
-  unfold doAddPublisher
-  split
-  · exact h
-  split
-  · exact h
-  · rename_i hk _
-    have hk' : w.s.conf.kind = .publisher := by simpa using hk
-    obtain ⟨i1, i2, i3, i4⟩ := pubOverride_post w h hc hk'
-    exact inv_pubAttach p ok _ i1 i3 (i4 ▸ hk') i2
-
-theorem inv_doRemovePublisher (p : Nat) (w : W) (h : Inv w.s) (hc : w.s.closed = false) :
-    Inv (doRemovePublisher p w).s := by
-  unfold doRemovePublisher
-  split
-  · exact inv_execRemove w h hc p ‹_›
-  · exact h
-
-theorem inv_srcReady (ok : Bool) (w : W) (h : Inv w.s) (hc : w.s.closed = false)
-    (hg : w.s.source = some .static ∧ w.s.srcRunning = true ∧ (!w.s.srcUp) = true) :
-    Inv (doSourceStaticSetReady ok w).s := by
-  unfold doSourceStaticSetReady
-  dsimp only
-  have hv := odStatic_iff w.s.conf
-  have hval := h.valid
-  unfold Conf.valid at hval
-  cases ok
-  · simp only [Bool.not_false, if_true, emit_s, subErrCleanup_s]
-    (repeat' split) <;> (try simp only [setAvailable_s] at *) <;> (cases h; inv_fields)
-  · simp only [Bool.not_true, Bool.false_eq_true, if_false, emit_s]
-    refine inv_consume _ ?_ ?_
-    · (repeat' split) <;>
-        simp only [emit_s, upd_s, newSub_s, setOnline_s, setAvailable_s, onDemandStaticSourceScheduleClose] at * <;>
-        (cases h; inv_fields)
-    · (repeat' split) <;>
-        simp only [emit_s, upd_s, newSub_s, setOnline_s, setAvailable_s, onDemandStaticSourceScheduleClose] at * <;>
-        (cases h; grind)
-
 theorem onDemandStaticSourceStop_s (w : W) : (onDemandStaticSourceStop w).s =
     { w.s with
       tSrcClose := if w.s.odSrc = .closing then false else w.s.tSrcClose, odSrc := .initial,
@@ -408,97 +293,42 @@ theorem onDemandPublisherStop_s (w : W) : (onDemandPublisherStop w).s =
   rcases w with ⟨s, o⟩
   by_cases h1 : s.odPub = .closing <;> by_cases h2 : s.hkDemand = true <;> simp_all [panic]
 
-theorem inv_srcNotReady (w : W) (h : Inv w.s) (hc : w.s.closed = false)
-    (hg : w.s.source = some .static ∧ w.s.srcRunning = true ∧ w.s.srcUp = true) :
-    Inv (doSourceStaticSetNotReady w).s := by
-  unfold doSourceStaticSetNotReady
-  dsimp only
-  have hv := odStatic_iff w.s.conf
-  have hval := h.valid
-  unfold Conf.valid at hval
-  (repeat' split) <;>
-    simp only [upd_s, setOffline_s, startOffline_s, setNotAvailable_s, onDemandStaticSourceStop_s] at * <;>
-    (repeat' split) <;> (cases h; inv_fields)
+/-- does the `path.run` epilogue stop the static source handler? -/
+def closeStops (s : State) : Prop :=
+  s.source = some .static ∧ (s.conf.sourceOnDemand = false ∨ s.odSrc ≠ .initial)
 
-theorem inv_fireTimer (t : Timer) (w : W) (h : Inv w.s) (hc : w.s.closed = false) (ha : timerArmed w.s t = true) :
-    Inv (fireTimer t w).s := by
-  have hv := odStatic_iff w.s.conf
-  have hval := h.valid
-  unfold Conf.valid at hval
-  cases t <;> unfold fireTimer timerArmed at * <;> simp only [closeCheck_s]
-  · unfold doOnDemandStaticSourceReadyTimer
-    simp only [onDemandStaticSourceStop_s, failHolds_s, upd_s]
-    (repeat' split) <;> (cases h; inv_fields)
-  · unfold doOnDemandStaticSourceCloseTimer
-    (repeat' split) <;> simp only [onDemandStaticSourceStop_s, setNotAvailable_s, upd_s, panic, emit_s] at * <;>
-      (repeat' split) <;> (cases h; inv_fields)
-  · unfold doOnDemandPublisherReadyTimer
-    simp only [onDemandPublisherStop_s, failHolds_s, upd_s]
-    cases h; inv_fields
-  · unfold doOnDemandPublisherCloseTimer
-    simp only [onDemandPublisherStop_s, upd_s]
-    cases h; inv_fields
+instance (s : State) : Decidable (closeStops s) := by unfold closeStops; infer_instance
 
-theorem inv_doClose (w : W) (h : Inv w.s) (hc : w.s.closed = false) : Inv (doClose w).s := by sorry
-
-theorem odStatic_regexp (c : Conf) (rx : Bool) : ({ c with regexp := rx } : Conf).odStatic = c.odStatic := rfl
-theorem odPub_regexp (c : Conf) (rx : Bool) : ({ c with regexp := rx } : Conf).odPub = c.odPub := rfl
-
-theorem inv_sreg (s : State) (h : Inv s) (g : List (Nat × Nat)) : Inv { s with sreg := g } := by
-  cases h; constructor <;> grind
-
-theorem inv_stepW (e : Event) (w : W) (h : Inv w.s) : Inv (stepW e w).s := by
-  unfold stepW
+theorem closeSource_s (s0 : State) (w : W) :
+    (closeSource s0 w).s = if closeStops s0 then (srcStop w).s else w.s := by
+  unfold closeSource closeStops
   split
-  · exact h
-  split
-  · unfold stepClosed
-    split <;> first | exact h | exact inv_sreg _ h _
-  rename_i hp hcl
-  have hc : w.s.closed = false := by simpa using hcl
-  split
-  · rw [closeCheck_s]; exact inv_doDescribe _ _ h hc
-  · rw [closeCheck_s]; exact inv_doAddPublisher _ _ _ h hc
-  · rw [closeCheck_s]; exact inv_doRemovePublisher _ _ h hc
-  · rw [closeCheck_s]; exact inv_doAddReader _ _ _ h hc
-  · rw [closeCheck_s]; exact inv_doRemoveReader _ _ h hc
-  · split
-    · exact inv_srcReady _ _ h hc ‹_›
-    · exact h
-  · split
-    · rw [closeCheck_s]; exact inv_srcNotReady _ h hc ‹_›
-    · exact h
-  · split
-    · exact inv_fireTimer _ _ h hc ‹_›
-    · exact h
-  · split
-    · rename_i rx hvv
-      simp only [upd_s]
-      have := odStatic_regexp w.s.conf rx
-      have := odPub_regexp w.s.conf rx
-      cases h; constructor <;> grind
-    · exact h
-  · exact inv_doClose _ h hc
-  · exact h
-  · exact inv_sreg _ h _
+  · rename_i h; simp only [h, true_and]; split <;> rfl
+  · rename_i p h; simp [h]
+  · rename_i h1 h2
+    have : ¬ (s0.source = some .static) := fun e => h1 e
+    simp [this]
 
-theorem inv_step (s : State) (e : Event) (h : Inv s) : Inv (step s e).1 := inv_stepW e { s := s } h
+theorem doClose_s (w : W) : (doClose w).s =
+    { w.s with
+      tSrcReady := false, tSrcClose := false, tPubReady := false, tPubClose := false,
+      descHold := [], readHold := [],
+      srcRunning := if closeStops w.s then false else w.s.srcRunning,
+      srcUp := if closeStops w.s ∧ w.s.srcRunning = true then false else w.s.srcUp,
+      hkDemand := false,
+      hkOnline := if w.s.stream.isSome then false else w.s.hkOnline,
+      readers := if w.s.stream.isSome then [] else w.s.readers,
+      hkAvail := if w.s.stream.isSome then false else w.s.hkAvail,
+      stream := none,
+      panicked := if w.s.stream.isSome
+        then ((if closeStops w.s ∧ w.s.srcRunning = false then true else w.s.panicked) || !w.s.hkAvail)
+        else (if closeStops w.s ∧ w.s.srcRunning = false then true else w.s.panicked),
+      closed := true, srcSub := none } := by
+  rcases w with ⟨s, o⟩
+  simp only [doClose, upd_s]
+  by_cases h1 : closeStops s <;> by_cases h4 : s.srcRunning = true <;>
+    by_cases h2 : s.hkDemand = true <;> by_cases h3 : s.stream.isSome = true <;>
+    simp_all [failHolds_s, setNotAvailable_s, srcStop_s, closeSource_s]
 
-theorem inv_init (c : Conf) (hv : c.valid = true) : Inv (init c) := by
-  unfold init initW
-  have hv' := odStatic_iff c
-  have hval := hv
-  unfold Conf.valid at hval
-  dsimp only
-  (repeat' split) <;> simp only [upd_s, emit_s, srcStart_s] at * <;> (constructor <;> grind)
-
-theorem inv_run (es : List Event) : ∀ s, Inv s → Inv (run s es).1 := by
-  induction es with
-  | nil => intro s h; exact h
-  | cons e es ih => intro s h; exact ih _ (inv_step s e h)
-
-/-- every state reachable from the loop's start state satisfies the invariant -/
-theorem inv_reach (c : Conf) (hv : c.valid = true) (es : List Event) : Inv (run (init c) es).1 :=
-  inv_run es _ (inv_init c hv)
 
 end MtxVerif.PathSM
